@@ -123,8 +123,8 @@ def ob_inv_entry(ctx):
     if not seen: return inconc('loop header never reached')
     # invariant at entry (ground reasoning with symbolic A): 0·A - p = (-1)·p ; 1·A - can(A) ∈ {0, p}
     A = z3.Int('A'); cana = z3.If(A >= P, A - P, A)
-    s = z3.Solver(); s.add(A >= 0, A < 2**64, cana != 0); s.add(z3.Not(z3.And(0 * A - P == (-1) * P, z3.Or(1 * A - cana == 0, 1 * A - cana == P), 0 < cana, cana < P))); smt.STATS['queries'] += 1
-    if s.check() != z3.unsat: return inconc('entry invariant')
+    s = z3.Solver(); s.add(A >= 0, A < 2**64, cana != 0); s.add(z3.Not(z3.And(0 * A - P == (-1) * P, z3.Or(1 * A - cana == 0, 1 * A - cana == P), 0 < cana, cana < P)))
+    if smt.check(s) != z3.unsat: return inconc('entry invariant')
     return ok('entry state (0, p, 1, can(a)) establishes the invariant with witnesses m1 = -1, m2 in {0,1}', sample=dict(part='entry'))
 
 def ob_inv_step(ctx):
@@ -169,7 +169,7 @@ def ob_inv_step(ctx):
     q = r / nr; nr2 = r % nr
     hyp = [0 < nr, nr < r, r <= P, 0 <= t, t < P, 0 <= nt, nt < P, t * A - r == m1 * P, nt * A - nr == m2 * P, nt2 == t - q * nt + K * P, 0 <= nt2, nt2 < P]
     for lab, g in (('range/variant', z3.And(0 <= nr2, nr2 < nr, nr <= P)), ('t\'·A - r\' = m2·p', nt * A - nr == m2 * P), ('newt\'·A - newr\' = (m1 - q·m2 + K·A)·p', nt2 * A - nr2 == (m1 - q * m2 + K * A) * P)):
-        s = z3.Solver(); s.set('timeout', 60000); s.add(hyp); s.add(z3.Not(g)); rr = s.check(); smt.STATS['queries'] += 1; nq += 1
+        s = z3.Solver(); s.set('timeout', 60000); s.add(hyp); s.add(z3.Not(g)); rr = smt.check(s); nq += 1
         if rr != z3.unsat: return inconc('invariant preservation "%s": %s' % (lab, rr))
     if not pratt(): return inconc('Pratt certificate for p failed')
     return ok('%d back-edge and %d exit path(s); %d queries: the body performs one Euclid step (r,newr) -> (newr, r mod newr) and preserves t·a ≡ r, newt·a ≡ newr (mod p) with explicit witnesses; exit returns t with t·a ≡ gcd' % (nback, nexit, nq),
